@@ -236,103 +236,6 @@ Proof.
     split; intro H0; try discriminate; try reflexivity; lia.
 Qed.
 
-Theorem composed_one_panics_iff s sp :
-  composed_one [(sp_src sp, s)] (Some sp) = Panic <->
-  (length s < sp_start sp \/ length s < sp_end sp \/ sp_end sp < sp_start sp).
-Proof.
-  unfold composed_one. cbn [find fst]. rewrite Nat.eqb_refl.
-  pose proof (compose_location_none s sp) as N.
-  destruct (compose_location s sp) as [l|].
-  - destruct (Nat.ltb_spec (sp_end sp) (sp_start sp)); split; intro H0; try reflexivity; try discriminate.
-    + tauto.
-    + destruct H0 as [H0|[H0|H0]]; [| |lia]; (assert (Some l = None) as X by (apply N; tauto); discriminate).
-  - split; intro H0; [|reflexivity]. assert (length s < sp_start sp \/ length s < sp_end sp) by (apply N; reflexivity). tauto.
-Qed.
-
-(* a span that `composed` leaves on a message names a file of the tree, lies within the character length of that
-   file, and the location is the position of its two ends; a span of a source outside the tree is removed *)
-Lemma find_source_key (tree : list (nat * source)) k p :
-  find (fun p => Nat.eqb (fst p) k) tree = Some p -> fst p = k.
-Proof. intro H. apply find_some in H as [_ H]. apply Nat.eqb_eq in H. exact H. Qed.
-
-Theorem composed_one_reported tree sp sp' loc :
-  composed_one tree sp = Ret (Some sp', loc) ->
-  sp = Some sp' /\
-  exists s, find (fun p => Nat.eqb (fst p) (sp_src sp')) tree = Some (sp_src sp', s) /\
-    sp_start sp' <= sp_end sp' /\ sp_end sp' <= length s /\
-    loc = Some (locate (lines s) (sp_start sp') 0, locate (lines s) (sp_end sp') 0).
-Proof.
-  unfold composed_one. destruct sp as [sp|]; [|discriminate].
-  destruct (find (fun p => Nat.eqb (fst p) (sp_src sp)) tree) as [[k s]|] eqn:F; [|discriminate].
-  destruct (compose_location s sp) as [l|] eqn:C; [|discriminate].
-  destruct (Nat.ltb_spec (sp_end sp) (sp_start sp)) as [R|R]; [discriminate|].
-  intro H. injection H as <- <-. split; [reflexivity|]. exists s.
-  pose proof (find_source_key _ _ _ F) as K. cbn [fst] in K. subst k.
-  assert (~ (length s < sp_start sp \/ length s < sp_end sp)) as B.
-  { intro B. apply compose_location_none in B. congruence. }
-  assert (sp_start sp <= length s) as B1 by lia. assert (sp_end sp <= length s) as B2 by lia.
-  repeat split; try assumption.
-  rewrite <- C. apply location_is_position_lemma; assumption.
-Qed.
-
-Theorem composed_one_foreign tree sp :
-  find (fun p => Nat.eqb (fst p) (sp_src sp)) tree = None -> composed_one tree (Some sp) = Ret (None, None).
-Proof. intro F. unfold composed_one. rewrite F. reflexivity. Qed.
-
-(* no message keeps a location without a span *)
-Theorem composed_one_location_has_span tree sp loc :
-  composed_one tree sp = Ret (None, loc) -> loc = None.
-Proof.
-  unfold composed_one. destruct sp as [sp|]; [|intro H; injection H as <-; reflexivity].
-  destruct (find (fun p => Nat.eqb (fst p) (sp_src sp)) tree) as [[k s]|]; [|intro H; injection H as <-; reflexivity].
-  destruct (compose_location s sp); [|discriminate]. destruct (Nat.ltb (sp_end sp) (sp_start sp)); discriminate.
-Qed.
-
-(* ------------------------------------------------------------ lexer errors as reported (composed) *)
-Theorem lexer_error_reported_located tree s bs be sid :
-  find (fun p => Nat.eqb (fst p) sid) tree = Some (sid, s) ->
-  boundary s bs -> boundary s be -> bs <= be ->
-  exists cs ce,
-    lexer_error_reported tree s bs be sid =
-      Ret ((Some (Span cs ce sid), Some (locate (lines s) cs 0, locate (lines s) ce 0)), firstn (ce - cs) (skipn cs s)) /\
-    cs <= ce /\ ce <= length s /\ byte_of_char s cs = bs /\ byte_of_char s ce = be.
-Proof.
-  intros F Hs He Hle.
-  destruct (lexer_error_span_in_bounds_lemma s bs be sid Hs He Hle) as (cs & ce & E & H1 & H2 & H3 & H4).
-  exists cs, ce. split; [|repeat split; assumption].
-  unfold lexer_error_reported. rewrite E. cbn [bind fst snd]. unfold composed_one. cbn [sp_src]. rewrite F.
-  rewrite location_is_position_lemma by (cbn [sp_start sp_end]; lia). cbn [sp_start sp_end].
-  destruct (Nat.ltb_spec ce cs); [lia | reflexivity].
-Qed.
-
-Theorem prql_to_tokens_error_located s bs be :
-  boundary s bs -> boundary s be -> bs <= be ->
-  exists cs ce,
-    prql_to_tokens_error s bs be =
-      Ret ((Some (Span cs ce 1), Some (locate (lines s) cs 0, locate (lines s) ce 0)), firstn (ce - cs) (skipn cs s)) /\
-    cs <= ce /\ ce <= length s /\ byte_of_char s cs = bs /\ byte_of_char s ce = be.
-Proof.
-  intros. unfold prql_to_tokens_error. apply lexer_error_reported_located; try assumption. reflexivity.
-Qed.
-
-(* ------------------------------------------------------------ fold_function: errors of std bodies *)
-Theorem respan_std_user err call cs sp :
-  call = Some cs -> sp_src cs <> std_source_id -> respan_std err call = Some sp -> sp_src sp <> std_source_id.
-Proof.
-  intros -> Hc. unfold respan_std, respan_moves. destruct err as [e|].
-  - destruct (Nat.eqb_spec (sp_src e) std_source_id) as [E|E]; destruct (Nat.eqb_spec (sp_src cs) std_source_id); cbn [negb andb]; try lia;
-      intro H; injection H as <-; assumption.
-  - cbn [andb]. discriminate.
-Qed.
-
-(* an error that does not point into std.prql is left alone *)
-Theorem respan_std_keeps err call :
-  (forall e, err = Some e -> sp_src e <> std_source_id) -> respan_std err call = err.
-Proof.
-  intro H. unfold respan_std, respan_moves. destruct err as [e|]; [|reflexivity].
-  specialize (H e eq_refl). destruct (Nat.eqb_spec (sp_src e) std_source_id); [contradiction | reflexivity].
-Qed.
-
 (* ------------------------------------------------------------ token spans *)
 Fixpoint toks_okb (prev : nat) (toks : list (nat * nat)) : bool :=
   match toks with
@@ -414,19 +317,6 @@ Proof.
   apply (IH (a - 1) (b - 1)); [lia | assumption].
 Qed.
 
-Theorem parser_span_unit_partial_lemma s toks i j :
-  let sp := map_span toks i j 1 in
-  ascii_before_byte s (sp_end sp) = true -> sp_start sp <= sp_end sp -> sp_end sp <= byte_len s ->
-  parser_error_location s toks i j = byte_span_location s sp.
-Proof.
-  intros sp Ha Hle Hlen. unfold parser_error_location, byte_span_location. fold sp.
-  pose proof (ascii_before_byte_len _ _ Ha Hlen) as He.
-  rewrite (ascii_before_byte_char s (sp_end sp) Ha He).
-  rewrite (ascii_before_byte_char s (sp_start sp) (ascii_before_byte_mono _ _ _ Hle Ha)) by lia.
-  cbn [bind]. destruct sp as [a b c] eqn:E. unfold sp in E. unfold map_span in E. injection E as <- <- <-.
-  reflexivity.
-Qed.
-
 (* ------------------------------------------------------------ F9 as an exact characterisation *)
 Lemma char_of_byte_le s : forall b k, char_of_byte s b = Ret k -> k <= b.
 Proof.
@@ -469,16 +359,6 @@ Proof.
     + symmetry. apply (char_eq_byte_iff_ascii _ _ _ He). assumption.
 Qed.
 
-Lemma composed_one_in_bounds s sp :
-  sp_start sp <= sp_end sp -> sp_end sp <= length s ->
-  composed_one [(sp_src sp, s)] (Some sp) =
-  Ret (Some sp, Some (locate (lines s) (sp_start sp) 0, locate (lines s) (sp_end sp) 0)).
-Proof.
-  intros H1 H2. unfold composed_one. cbn [find fst]. rewrite Nat.eqb_refl.
-  rewrite location_is_position_lemma by lia. destruct (Nat.ltb_spec (sp_end sp) (sp_start sp)); [lia | reflexivity].
-Qed.
-
-(* distinct offsets of a source have distinct (line, column) positions *)
 Lemma locate_injective s a b : a <= length s -> b <= length s ->
   locate (lines s) a 0 = locate (lines s) b 0 -> a = b.
 Proof.
@@ -492,54 +372,109 @@ Qed.
 (* location level, both directions, every source: what `composed` reports for a parser error (token byte span read as
    character offsets) is the location of the characters at those byte offsets IFF the text before the end of the span
    is ASCII.  Otherwise it is the assert panic or a different (line, column). *)
-Lemma byte_span_unit_iff s bs be :
-  boundary s bs -> boundary s be -> bs <= be ->
-  (bind (composed_one [(1, s)] (Some (Span bs be 1))) (fun r => Ret (snd r)) = byte_span_location s (Span bs be 1)
-   <-> ascii_before_byte s be = true).
+(* ------------------------------------------------------------ composed (byte span -> character span, once) *)
+Lemma span_to_chars_bytes s bs be sid cs ce :
+  cs <= length s -> ce <= length s -> byte_of_char s cs = bs -> byte_of_char s ce = be ->
+  span_to_chars s (Span bs be sid) = Span cs ce sid.
 Proof.
-  intros Bs Be Hle.
-  assert (be <= byte_len s) as Hlen by (destruct Be as (k & _ & <-); apply byte_of_char_le).
-  apply char_of_byte_boundary in Bs as (cs & Hs). apply char_of_byte_boundary in Be as (ce & He).
-  pose proof (char_of_byte_ret _ _ _ Hs) as [Ls Es]. pose proof (char_of_byte_ret _ _ _ He) as [Le Ee].
-  pose proof (char_of_byte_le _ _ _ He) as Lce.
-  assert (cs <= ce) as Hc.
-  { destruct (Nat.le_gt_cases cs ce) as [|Hgt]; [assumption|].
-    pose proof (byte_of_char_strict s ce cs Hgt Ls). lia. }
-  unfold byte_span_location. cbn [sp_start sp_end sp_src]. rewrite Hs, He. cbn [bind].
-  pose proof (composed_one_in_bounds s (Span cs ce 1)) as C. cbn [sp_start sp_end sp_src] in C. unfold source in *. rewrite (C Hc Le).
-  cbn [bind snd]. split.
-  - intro E. destruct (ascii_before_byte s be) eqn:A; [reflexivity|exfalso].
-    assert (ce <> be) as Ne.
-    { intro X. apply (char_eq_byte_iff_ascii _ _ _ He) in X. congruence. }
-    destruct (Nat.le_gt_cases be (length s)) as [Hin|Hout].
-    + pose proof (composed_one_in_bounds s (Span bs be 1)) as D. cbn [sp_start sp_end sp_src] in D. unfold source in *.
-      rewrite (D Hle Hin) in E. cbn [bind snd] in E. injection E as _ E2. apply locate_injective in E2; lia.
-    + assert (composed_one [(1, s)] (Some (Span bs be 1)) = Panic) as P.
-      { apply (composed_one_panics_iff s (Span bs be 1)). cbn [sp_start sp_end]. lia. }
-      rewrite P in E. discriminate.
-  - intro A. destruct (byte_span_is_char_span_iff s bs be cs ce Hs He Hle) as [_ X]. destruct (X A) as [-> ->].
-    rewrite (C Hc Le). reflexivity.
+  intros Hcs Hce Es Ee. unfold span_to_chars, to_char. cbn [sp_start sp_end sp_src].
+  rewrite <- Es, <- Ee, !char_of_byte_of_char by assumption. reflexivity.
 Qed.
 
-Theorem parser_span_unit_iff s toks i j :
-  let sp := map_span toks i j 1 in
-  boundary s (sp_start sp) -> boundary s (sp_end sp) -> sp_start sp <= sp_end sp ->
-  (parser_error_location s toks i j = byte_span_location s sp <-> ascii_before_byte s (sp_end sp) = true).
+Lemma span_to_chars_src s sp : sp_src (span_to_chars s sp) = sp_src sp.
+Proof. unfold span_to_chars. destruct (to_char s (sp_start sp)); [destruct (to_char s (sp_end sp))|]; reflexivity. Qed.
+
+(* `composed` panics exactly when the converted span is past the character length (the assert) or reversed (ariadne) *)
+Theorem composed_one_panics_iff s sp :
+  composed_one [(sp_src sp, s)] (Some sp) = Panic <->
+  (let sp' := span_to_chars s sp in length s < sp_start sp' \/ length s < sp_end sp' \/ sp_end sp' < sp_start sp').
 Proof.
-  intros sp Bs Be Hle. unfold parser_error_location. fold sp.
-  assert (sp = Span (sp_start sp) (sp_end sp) 1) as E by (destruct sp eqn:X; unfold sp in X; unfold map_span in X; injection X as <- <- <-; reflexivity).
-  rewrite E at 1 3. apply byte_span_unit_iff; assumption.
+  unfold composed_one. cbn [find fst]. rewrite Nat.eqb_refl. cbv zeta. set (sp' := span_to_chars s sp).
+  pose proof (compose_location_none s sp') as N.
+  destruct (compose_location s sp') as [l|].
+  - destruct (Nat.ltb_spec (sp_end sp') (sp_start sp')); split; intro H0; try reflexivity; try discriminate.
+    + tauto.
+    + destruct H0 as [H0|[H0|H0]]; [| |lia]; (assert (Some l = None) as X by (apply N; tauto); discriminate).
+  - split; intro H0; [|reflexivity]. assert (length s < sp_start sp' \/ length s < sp_end sp') by (apply N; reflexivity). tauto.
 Qed.
 
-(* conditional on the repair of F9 (byte -> character conversion before `composed`, what byte_span_location does):
-   a parser error over tokens i..j of ordered tokens that lie on character boundaries is reported without a panic, at
-   the position of the characters the tokens start and end at *)
-Theorem parser_error_located_if_converted s toks i j :
+(* a span that `composed` leaves on a message is the conversion of the one it had, names a file of the tree, has
+   start <= end <= the character length of that file, and the location is the position of its two ends *)
+Lemma find_source_key (tree : list (nat * source)) k p :
+  find (fun p => Nat.eqb (fst p) k) tree = Some p -> fst p = k.
+Proof. intro H. apply find_some in H as [_ H]. apply Nat.eqb_eq in H. exact H. Qed.
+
+Theorem composed_one_reported tree sp sp' loc :
+  composed_one tree sp = Ret (Some sp', loc) ->
+  exists sp0 s, sp = Some sp0 /\ find (fun p => Nat.eqb (fst p) (sp_src sp')) tree = Some (sp_src sp', s) /\
+    sp' = span_to_chars s sp0 /\
+    sp_start sp' <= sp_end sp' /\ sp_end sp' <= length s /\
+    loc = Some (locate (lines s) (sp_start sp') 0, locate (lines s) (sp_end sp') 0).
+Proof.
+  unfold composed_one. destruct sp as [sp|]; [|discriminate].
+  destruct (find (fun p => Nat.eqb (fst p) (sp_src sp)) tree) as [[k s]|] eqn:F; [|discriminate].
+  destruct (compose_location s (span_to_chars s sp)) as [l|] eqn:C; [|discriminate].
+  destruct (Nat.ltb_spec (sp_end (span_to_chars s sp)) (sp_start (span_to_chars s sp))) as [R|R]; [discriminate|].
+  intro H. injection H as <- <-. exists sp, s. split; [reflexivity|].
+  pose proof (find_source_key _ _ _ F) as K. cbn [fst] in K. subst k. rewrite span_to_chars_src.
+  assert (~ (length s < sp_start (span_to_chars s sp) \/ length s < sp_end (span_to_chars s sp))) as B.
+  { intro B. apply compose_location_none in B. congruence. }
+  repeat split; try assumption; try lia.
+  rewrite <- C. apply location_is_position_lemma; lia.
+Qed.
+
+Theorem composed_one_foreign tree sp :
+  find (fun p => Nat.eqb (fst p) (sp_src sp)) tree = None -> composed_one tree (Some sp) = Ret (None, None).
+Proof. intro F. unfold composed_one. rewrite F. reflexivity. Qed.
+
+(* no message keeps a location without a span *)
+Theorem composed_one_location_has_span tree sp loc :
+  composed_one tree sp = Ret (None, loc) -> loc = None.
+Proof.
+  unfold composed_one. destruct sp as [sp|]; [|intro H; injection H as <-; reflexivity].
+  destruct (find (fun p => Nat.eqb (fst p) (sp_src sp)) tree) as [[k s]|]; [|intro H; injection H as <-; reflexivity].
+  destruct (compose_location s (span_to_chars s sp)); [|discriminate].
+  destruct (Nat.ltb (sp_end (span_to_chars s sp)) (sp_start (span_to_chars s sp))); discriminate.
+Qed.
+
+(* a byte span whose ends are the byte offsets of characters cs <= ce of the file: reported as the character span *)
+Lemma composed_one_bytes tree s sid bs be cs ce :
+  find (fun p => Nat.eqb (fst p) sid) tree = Some (sid, s) ->
+  cs <= ce -> ce <= length s -> byte_of_char s cs = bs -> byte_of_char s ce = be ->
+  composed_one tree (Some (Span bs be sid)) =
+  Ret (Some (Span cs ce sid), Some (locate (lines s) cs 0, locate (lines s) ce 0)).
+Proof.
+  intros F Hc Hce Es Ee. unfold composed_one. cbn [sp_src]. unfold source in *. rewrite F.
+  rewrite (span_to_chars_bytes s bs be sid cs ce) by (assumption || lia).
+  rewrite location_is_position_lemma by (cbn [sp_start sp_end]; lia). cbn [sp_start sp_end].
+  destruct (Nat.ltb_spec ce cs); [lia | reflexivity].
+Qed.
+
+(* never a panic for a span that is ordered and inside the character length, whatever its unit (used by C12) *)
+Theorem composed_one_total_in_bounds s sp :
+  sp_start sp <= sp_end sp -> sp_start sp <= length s -> sp_end sp <= length s ->
+  composed_one [(sp_src sp, s)] (Some sp) <> Panic.
+Proof.
+  intros H0 H1 H2 E. apply composed_one_panics_iff in E. cbv zeta in E. unfold span_to_chars, to_char in E.
+  destruct (char_of_byte s (sp_start sp)) as [cs| |] eqn:Cs; [|cbn [sp_start sp_end] in E; lia..].
+  destruct (char_of_byte s (sp_end sp)) as [ce| |] eqn:Ce; [|cbn [sp_start sp_end] in E; lia..].
+  cbn [sp_start sp_end] in E.
+  pose proof (char_of_byte_le _ _ _ Cs). pose proof (char_of_byte_le _ _ _ Ce).
+  pose proof (char_of_byte_ret _ _ _ Cs) as [Ls Es]. pose proof (char_of_byte_ret _ _ _ Ce) as [Le Ee].
+  assert (cs <= ce).
+  { destruct (Nat.le_gt_cases cs ce) as [|Hgt]; [assumption|]. pose proof (byte_of_char_strict s ce cs Hgt Ls). lia. }
+  lia.
+Qed.
+
+(* FULL STRENGTH (true since d3106b1; before, false behind non-ASCII text: finding F9): a parser error over tokens i..j is
+   reported without a panic as the CHARACTER span of the text from the start of token i to the end of token j-1, with the
+   position of both ends *)
+Theorem parser_error_located s toks i j :
   let sp := map_span toks i j 1 in
   toks_okb 0 toks = true -> i < j -> j <= length toks ->
   boundary s (sp_start sp) -> boundary s (sp_end sp) ->
   exists cs ce,
-    byte_span_location s sp = Ret (Some (locate (lines s) cs 0, locate (lines s) ce 0)) /\
+    parser_error_reported s toks i j = Ret (Some (Span cs ce 1), Some (locate (lines s) cs 0, locate (lines s) ce 0)) /\
     cs <= ce /\ ce <= length s /\ byte_of_char s cs = sp_start sp /\ byte_of_char s ce = sp_end sp.
 Proof.
   intros sp Hok Hij Hj (cs & Hcs & Es) (ce & Hce & Ee).
@@ -548,9 +483,69 @@ Proof.
   { destruct (Nat.le_gt_cases cs ce) as [|Hgt]; [assumption|].
     pose proof (byte_of_char_strict s ce cs Hgt Hcs). lia. }
   exists cs, ce. split; [|repeat split; assumption].
-  unfold byte_span_location. rewrite <- Es, <- Ee, !char_of_byte_of_char by assumption. cbn [bind].
-  pose proof (composed_one_in_bounds s (Span cs ce (sp_src sp))) as C. cbn [sp_start sp_end sp_src] in C.
-  unfold source in *. rewrite (C Hc Hce). reflexivity.
+  unfold parser_error_reported. fold sp.
+  assert (sp = Span (sp_start sp) (sp_end sp) 1) as E by (destruct sp eqn:X; unfold sp in X; unfold map_span in X; injection X as <- <- <-; reflexivity).
+  rewrite E. apply composed_one_bytes; try assumption. reflexivity.
+Qed.
+
+(* ------------------------------------------------------------ lexer errors as reported (re-based to bytes, composed) *)
+Lemma byte_of_char_ascii : forall s k, forallb is_ascii s = true -> k <= length s -> byte_of_char s k = k.
+Proof.
+  induction s as [|c s IH]; intros k A Hk; cbn [length] in Hk.
+  - assert (k = 0) by lia. subst. reflexivity.
+  - destruct k as [|k]; [reflexivity|]. cbn [forallb] in A. apply andb_true_iff in A as [A1 A2].
+    rewrite byte_of_char_S, (utf8_len_ascii _ A1), (IH k A2) by lia. reflexivity.
+Qed.
+
+Lemma lexer_error_to_byte_span_spec s cs ce sid : cs <= length s -> ce <= length s ->
+  lexer_error_to_byte_span s (Span cs ce sid) = Span (byte_of_char s cs) (byte_of_char s ce) sid.
+Proof.
+  intros H1 H2. unfold lexer_error_to_byte_span. destruct (forallb is_ascii s) eqn:A; [|reflexivity].
+  cbn [sp_start sp_end sp_src]. rewrite !byte_of_char_ascii by assumption. reflexivity.
+Qed.
+
+Theorem lexer_error_reported_located tree s bs be sid :
+  find (fun p => Nat.eqb (fst p) sid) tree = Some (sid, s) ->
+  boundary s bs -> boundary s be -> bs <= be ->
+  exists cs ce,
+    lexer_error_reported tree s bs be sid =
+      Ret ((Some (Span cs ce sid), Some (locate (lines s) cs 0, locate (lines s) ce 0)), firstn (ce - cs) (skipn cs s)) /\
+    cs <= ce /\ ce <= length s /\ byte_of_char s cs = bs /\ byte_of_char s ce = be.
+Proof.
+  intros F Hs He Hle.
+  destruct (lexer_error_span_in_bounds_lemma s bs be sid Hs He Hle) as (cs & ce & E & H1 & H2 & H3 & H4).
+  exists cs, ce. split; [|repeat split; assumption].
+  unfold lexer_error_reported. rewrite E. cbn [bind fst snd].
+  rewrite lexer_error_to_byte_span_spec by lia. rewrite H3, H4.
+  rewrite (composed_one_bytes tree s sid bs be cs ce F H1 H2 H3 H4). reflexivity.
+Qed.
+
+Theorem prql_to_tokens_error_located s bs be :
+  boundary s bs -> boundary s be -> bs <= be ->
+  exists cs ce,
+    prql_to_tokens_error s bs be =
+      Ret ((Some (Span cs ce 1), Some (locate (lines s) cs 0, locate (lines s) ce 0)), firstn (ce - cs) (skipn cs s)) /\
+    cs <= ce /\ ce <= length s /\ byte_of_char s cs = bs /\ byte_of_char s ce = be.
+Proof.
+  intros. unfold prql_to_tokens_error. apply lexer_error_reported_located; try assumption. reflexivity.
+Qed.
+
+(* ------------------------------------------------------------ fold_function: errors of std bodies *)
+Theorem respan_std_user err call cs sp :
+  call = Some cs -> sp_src cs <> std_source_id -> respan_std err call = Some sp -> sp_src sp <> std_source_id.
+Proof.
+  intros -> Hc. unfold respan_std, respan_moves. destruct err as [e|].
+  - destruct (Nat.eqb_spec (sp_src e) std_source_id) as [E|E]; destruct (Nat.eqb_spec (sp_src cs) std_source_id); cbn [negb andb]; try lia;
+      intro H; injection H as <-; assumption.
+  - cbn [andb]. discriminate.
+Qed.
+
+(* an error that does not point into std.prql is left alone *)
+Theorem respan_std_keeps err call :
+  (forall e, err = Some e -> sp_src e <> std_source_id) -> respan_std err call = err.
+Proof.
+  intro H. unfold respan_std, respan_moves. destruct err as [e|]; [|reflexivity].
+  specialize (H e eq_refl). destruct (Nat.eqb_spec (sp_src e) std_source_id); [contradiction | reflexivity].
 Qed.
 
 (* ------------------------------------------------------------ interpolation rebasing *)
@@ -689,51 +684,3 @@ Proof.
   unfold tree_source, tree_path. rewrite (last_assoc_absent _ _ X). reflexivity.
 Qed.
 
-(* ------------------------------------------------------------ the repaired pipeline (prepared, fixes/F9-…-in-composed.diff) *)
-Lemma composed_one_fixed_bytes tree s sid bs be cs ce :
-  find (fun p => Nat.eqb (fst p) sid) tree = Some (sid, s) ->
-  cs <= ce -> ce <= length s -> byte_of_char s cs = bs -> byte_of_char s ce = be ->
-  composed_one_fixed tree (Some (Span bs be sid)) =
-  Ret (Some (Span cs ce sid), Some (locate (lines s) cs 0, locate (lines s) ce 0)).
-Proof.
-  intros F Hc Hce Es Ee. unfold composed_one_fixed, to_char. cbn [sp_src sp_start sp_end]. unfold source in *. rewrite F.
-  rewrite <- Es, <- Ee, !char_of_byte_of_char by lia. cbn [sp_start sp_end].
-  rewrite location_is_position_lemma by (cbn [sp_start sp_end]; lia). cbn [sp_start sp_end].
-  destruct (Nat.ltb_spec ce cs); [lia | reflexivity].
-Qed.
-
-(* FULL STRENGTH, no ASCII hypothesis: a parser error over tokens i..j is reported without a panic as the CHARACTER span
-   of the text from the start of token i to the end of token j-1, with the position of both ends *)
-Theorem parser_error_located_fixed s toks i j :
-  let sp := map_span toks i j 1 in
-  toks_okb 0 toks = true -> i < j -> j <= length toks ->
-  boundary s (sp_start sp) -> boundary s (sp_end sp) ->
-  exists cs ce,
-    composed_one_fixed [(1, s)] (Some sp) = Ret (Some (Span cs ce 1), Some (locate (lines s) cs 0, locate (lines s) ce 0)) /\
-    cs <= ce /\ ce <= length s /\ byte_of_char s cs = sp_start sp /\ byte_of_char s ce = sp_end sp.
-Proof.
-  intros sp Hok Hij Hj (cs & Hcs & Es) (ce & Hce & Ee).
-  pose proof (map_span_start_le_end toks i j 1 Hok Hij Hj) as Hle. fold sp in Hle.
-  assert (cs <= ce) as Hc.
-  { destruct (Nat.le_gt_cases cs ce) as [|Hgt]; [assumption|].
-    pose proof (byte_of_char_strict s ce cs Hgt Hcs). lia. }
-  exists cs, ce. split; [|repeat split; assumption].
-  assert (sp = Span (sp_start sp) (sp_end sp) 1) as E by (destruct sp eqn:X; unfold sp in X; unfold map_span in X; injection X as <- <- <-; reflexivity).
-  rewrite E. apply composed_one_fixed_bytes; try assumption. reflexivity.
-Qed.
-
-(* the repair changes nothing for lexer errors: character span -> byte span -> `composed` gives what HEAD reports *)
-Theorem lexer_error_reported_fixed_same tree s bs be sid :
-  find (fun p => Nat.eqb (fst p) sid) tree = Some (sid, s) ->
-  boundary s bs -> boundary s be -> bs <= be ->
-  lexer_error_reported_fixed tree s bs be sid = lexer_error_reported tree s bs be sid.
-Proof.
-  intros F Hs He Hle.
-  destruct (lexer_error_span_in_bounds_lemma s bs be sid Hs He Hle) as (cs & ce & E & G1 & G2 & G3 & G4).
-  unfold lexer_error_reported_fixed, lexer_error_reported. rewrite E. cbn [bind fst snd].
-  unfold lexer_error_to_byte_span. cbn [sp_start sp_end sp_src]. rewrite G3, G4.
-  rewrite (composed_one_fixed_bytes tree s sid bs be cs ce F G1 G2 G3 G4).
-  unfold composed_one. cbn [sp_src]. unfold source in *. rewrite F.
-  rewrite location_is_position_lemma by (cbn [sp_start sp_end]; lia). cbn [sp_start sp_end].
-  destruct (Nat.ltb_spec ce cs); [lia | reflexivity].
-Qed.
